@@ -147,3 +147,123 @@ def unapplied_within_range(R, ctx, rid):
             ok = bound and same_item
             why = "split offset = <range boundary> - <item>.id.clock: boundary=%s item-clock=%s" % (bound, same_item)
         R.ob(rid, fn, "split:" + site.rsplit("#", 1)[-1], ok, why, cs.loc())
+
+
+
+def lookup_slices(R, ctx, rid):
+    """id -> block -> slice: the lookups everything else is built on."""
+    import re
+    from ylib.formula import Formulas, truth_check, fshow, f_or
+    Y = ctx.yrs
+    R.rule(rid, "R-PROV/R-GUARD id lookups: BlockStore::get_item_clean_start(id) is ItemSlice::new(p, id.clock - p.id.clock, p.len - 1) and "
+                "get_item_clean_end(id) is ItemSlice::new(p, 0, id.clock - p.id.clock) with p = get_item(id) (value numbering); the "
+                "binary search ClientBlockList::find_index returns an index exactly when start <= clock <= end of that block, moves "
+                "`left` past mid exactly when start <= clock and clock > end, and `right` below mid exactly when start > clock (path "
+                "formulas of one loop round)")
+    for name, want in (("get_item_clean_start", "start"), ("get_item_clean_end", "end")):
+        fn = Y.fn("yrs::block_store::BlockStore::" + name)
+        v = FnView(fn)
+        news = fn.calls_to("yrs::slice::ItemSlice::new")
+        ok = False
+        why = "%d ItemSlice::new call(s)" % len(news)
+        if len(news) == 1 and len(news[0].args) == 3:
+            cs = news[0]
+            p = mir_root(fn, cs.args[0])
+            d = mir_def(fn, cs.args[0])
+            from_get = term_has_call(v.arg(cs, 0, 10), "re:BlockStore::get_item$")
+
+            def is_off(op):
+                df = mir_difference(fn, op)
+                if not df:
+                    return False
+                a, b = df
+                ta, tb = simp_deep(v.terms.operand(a, 8)), simp_deep(v.terms.operand(b, 8))
+                return field_path(ta)[-1:] == ["clock"] and any(x[0] == "param" and fn.local_name(x[1]) == "id" for x in walk(ta)) and \
+                    field_path(tb)[-1:] == ["clock"] and term_has_call(tb, "re:Item::id$|re:BlockStore::get_item$") or \
+                    (field_path(ta)[-1:] == ["clock"] and any(x[0] == "param" and fn.local_name(x[1]) == "id" for x in walk(ta)) and
+                     field_path(tb)[-1:] == ["clock"] and not any(x[0] == "param" and fn.local_name(x[1]) == "id" for x in walk(tb)))
+
+            def is_last(op):
+                df = mir_difference(fn, op)
+                if not df:
+                    return False
+                a, b = df
+                return term_has_call(v.terms.operand(a, 8), "re:Item::len$") and mir_root(fn, b) == ("const", 1)
+            if want == "start":
+                ok = from_get and is_off(cs.args[1]) and is_last(cs.args[2])
+                why = "slice = (p, id.clock - p.clock, p.len - 1): from get_item=%s offset=%s last=%s" % (from_get, is_off(cs.args[1]), is_last(cs.args[2]))
+            else:
+                ok = from_get and mir_root(fn, cs.args[1]) == ("const", 0) and is_off(cs.args[2])
+                why = "slice = (p, 0, id.clock - p.clock): from get_item=%s zero=%s offset=%s" % (from_get, mir_root(fn, cs.args[1]) == ("const", 0), is_off(cs.args[2]))
+        R.ob(rid, fn, "slice:" + name, ok, why)
+    # binary search
+    fn = Y.fn("yrs::block_store::ClientBlockList::find_index")
+    fm = Formulas(fn, simp_deep)
+    fm.expand = False
+    back = sorted(fm.back_edges())
+    if not back:
+        R.ob(rid, fn, "search", False, "no loop found in find_index")
+        return
+    TAIL, H = back[-1]
+    cfg = fn.cfg()
+
+    def cls(k, t):
+        t = simp_deep(t) if isinstance(t, tuple) else t
+        if not isinstance(t, tuple) or t[0] != "bin":
+            return None
+        a, b = simp_deep(t[2]), simp_deep(t[3])
+
+        def kind(x):
+            if x[0] == "param" and fn.local_name(x[1]) == "clock":
+                return "clock"
+            # a (possibly re-assigned) local holding one component of Block::clock_range(): all alternatives agree on which
+            comps = set()
+            for y in walk(x):
+                if y[0] == "field" and y[1] in ("tuple.0", "tuple.1") and term_has_call(y[2], "re:Block::clock_range$"):
+                    comps.add(y[1])
+            others = [y for y in walk(x) if y[0] in ("param", "const", "bin")]
+            if len(comps) == 1 and not others:
+                return "start" if comps == {"tuple.0"} else "end"
+            if x[0] == "phi" or (x[0] == "local"):
+                names_ = {fn.local_name(y[1]) for y in walk(x) if y[0] == "local"}
+            return None
+        ka, kb = kind(a), kind(b)
+        table = {("start", "Le", "clock"): "SLE", ("clock", "Ge", "start"): "SLE", ("start", "Gt", "clock"): "!SLE", ("clock", "Lt", "start"): "!SLE",
+                 ("clock", "Le", "end"): "CLE", ("end", "Ge", "clock"): "CLE", ("clock", "Gt", "end"): "!CLE", ("end", "Lt", "clock"): "!CLE"}
+        got = table.get((ka, t[1], kb))
+        if got:
+            return got
+        if t[1] in ("Le", "Lt", "Ge", "Gt") and ka is None and kb is None and "clock_range" not in k and "clock" not in [fn.local_name(x[1]) for x in walk(t) if x[0] == "param"]:
+            return "LOOP"  # the search-window test left <= right
+        return None
+    # effects inside the loop: return Some(mid) / left := mid+1 / right := mid-1
+    body = set()
+    st = [TAIL]
+    body = {H, TAIL}
+    while st:
+        n = st.pop()
+        if n == H:
+            continue
+        for p_ in cfg.pred[n]:
+            if p_ not in body:
+                body.add(p_)
+                st.append(p_)
+    rets = [i for i, j, s_ in fn.stmts() if s_["dst"] == 0 and "agg" in s_["rv"] and s_["rv"]["agg"].get("variant") == "Some" and
+            (i in body or any(cfg.dominates(b, i) for b in body if b != H))]
+    rets = [i for i in rets if cfg.dominates(H, i)]
+    names = {}
+    for i, j, s_ in fn.stmts():
+        if i in body and isinstance(s_["dst"], int) and fn.local_name(s_["dst"]) in ("left", "right") and ("use" in s_["rv"] or "bin" in s_["rv"]):
+            names.setdefault(fn.local_name(s_["dst"]), []).append(i)
+
+    def compare(site, blocks, pred, what):
+        if not blocks:
+            R.ob(rid, fn, site, False, "no %s found in the search loop" % what)
+            return
+        f = f_or(*[fm.reach_from(H, b) for b in blocks])
+        ok, cex, keys = truth_check(f, cls, lambda n: None if not n.get("LOOP", True) else bool(pred(n)), max_atoms=10)
+        R.ob(rid, fn, site, ok, "%s: %s" % (what, fshow(f)[:160]) if ok else "%s deviates: %s; formula %s" % (what, cex, fshow(f)[:200]))
+    g = lambda n, x: n.get(x, False)
+    compare("search:found", rets, lambda n: g(n, "SLE") and g(n, "CLE"), "return Some(mid) iff start <= clock <= end")
+    compare("search:go-right", names.get("left", []), lambda n: g(n, "SLE") and not g(n, "CLE"), "left := mid + 1 iff start <= clock and clock > end")
+    compare("search:go-left", names.get("right", []), lambda n: not g(n, "SLE"), "right := mid - 1 iff start > clock")
